@@ -67,3 +67,14 @@ VARIANTS += [
 VARIANTS += [
     M('C06', 'record-level-tolerance-proportional-to-the-limit', E(PC, "    return (a >= b) | (a >= fuzz_down(b, epsilon))", "    return (a >= b) | (a >= b - b * epsilon)"), rule='C06-AGREE', key='df_fuzzy_gt'),
 ]
+
+VARIANTS += [
+    M('C06', 'detection-flags-as-a-series-with-a-fresh-index', E(PC, "        return np.where(pd.isnull(column), null, expr.astype('O'))", "        return pd.Series(np.where(pd.isnull(column), null, expr.astype('O')), dtype='O')"),
+      rule='C06-ALIGNED', key='detection_field'),
+    M('C06', 'failing-mask-reused-after-the-output-index-was-reset', [
+        E(PC, "        n_failing_records = (fails > 0).astype(int).sum()", "        failing = fails > 0\n        n_failing_records = failing.astype(int).sum()"),
+        E(PC, "        if not detect_write_all:\n            out_df = out_df[out_df[nfailname] > 0]\n        return Detection(", "        if not detect_write_all:\n            out_df = out_df[failing]\n        return Detection(")],
+      rule='C06-ALIGNED', key='out_df[failing]'),
+    M('C06', 'refactor-detection-flags-as-a-series-with-the-column-index', E(PC, "        return np.where(pd.isnull(column), null, expr.astype('O'))", "        return pd.Series(np.where(pd.isnull(column), null, expr.astype('O')), index=column.index, dtype='O')"), kind='refactor'),
+    M('C06', 'refactor-failing-mask-named-at-its-use', E(PC, "        if not detect_write_all:\n            out_df = out_df[out_df[nfailname] > 0]\n        return Detection(", "        if not detect_write_all:\n            still_failing = out_df[nfailname] > 0\n            out_df = out_df[still_failing]\n        return Detection("), kind='refactor'),
+]
